@@ -164,6 +164,48 @@ def float_dec(f):
     return ("neg", t) if neg else t
 
 
+def printed_name(e, mode: str) -> str:
+    """the name under which the printers are expected to show a symbol-like object (reference, independent of them)"""
+    from symplyphysics.core.symbols.symbols import DimensionSymbol  # pylint: disable=import-outside-toplevel
+    if mode == "code":
+        return e.display_name if isinstance(e, DimensionSymbol) else str(getattr(e, "name"))
+    raw = e.display_latex if isinstance(e, DimensionSymbol) else str(getattr(e, "name"))
+    return raw if isinstance(e, sympy.physics.units.Quantity) else latex_name(raw)
+
+
+def name_clashes(expr, mode: str):
+    """Per-equation distinctness of display names, independent of the Reader (works for structure-only items too):
+    {printed name: [distinct objects]} for every name shared by two DIFFERENT symbols of the same syntactic category
+    (plain symbols and quantities / bases of indexed families / heads of applied functions)."""
+    from symplyphysics.core.operations.symbolic import Symbolic  # pylint: disable=import-outside-toplevel
+    from sympy.core.function import AppliedUndef  # pylint: disable=import-outside-toplevel
+    groups: dict = {}
+    todo = [expr]
+    while todo:
+        top = todo.pop()
+        for node in sympy.preorder_traversal(top):
+            if isinstance(node, Symbolic):
+                todo.append(node.factor)
+                continue
+            if isinstance(node, AppliedUndef):
+                cat, obj = "fun", node.func
+            elif isinstance(node, sympy.IndexedBase):
+                cat, obj = "indexed", node
+            elif isinstance(node, sympy.physics.units.Quantity) or (getattr(node, "is_Symbol", False)
+                    and not isinstance(node, sympy.Idx)):
+                cat, obj = "sym", node
+            else:
+                continue
+            try:
+                nm = printed_name(obj, mode)
+            except Exception:  # pylint: disable=broad-except
+                continue
+            objs = groups.setdefault((cat, nm), [])
+            if not any(o is obj or o == obj for o in objs):
+                objs.append(obj)
+    return {nm: objs for (cat, nm), objs in groups.items() if len(objs) > 1}
+
+
 class Reader:
     def __init__(self, mode: str, special_ok: bool = True):
         assert mode in ("code", "latex")
@@ -173,6 +215,8 @@ class Reader:
         self.special: set[str] = set()      # special heads met
         self.heads: set[str] = set()        # display names of applied (user) functions
         self.raw_latex: dict[str, str] = {}  # printed LaTeX name -> display_latex as declared
+        self.owners: dict = {}               # (category, printed name) -> distinct objects printed under it
+        self.clashes: dict[str, list] = {}   # printed name -> further distinct symbols of the same category
         self.assume: dict[str, str] = {}    # display name -> "pos" | "neg" | "nonneg" | "nz"  (declared assumptions)
 
     # ---- names ----------------------------------------------------------------------------------
@@ -187,6 +231,7 @@ class Reader:
             nm = raw if isinstance(e, sympy.physics.units.Quantity) else latex_name(raw)
             self.raw_latex[nm] = raw
         self.names.setdefault(nm, set()).add(e)
+        key = self.var_key(nm, e)
         kind = None
         if getattr(e, "is_positive", None):
             kind = "pos"
@@ -196,9 +241,26 @@ class Reader:
             kind = "nonneg"
         elif getattr(e, "is_nonzero", None) and getattr(e, "is_real", None):
             kind = "nz"
-        if nm in self.assume and self.assume[nm] != kind:
-            kind = None          # objects sharing the name disagree: assume nothing
-        self.assume[nm] = kind
+        if key in self.assume and self.assume[key] != kind:
+            kind = None          # objects sharing the variable disagree: assume nothing
+        self.assume[key] = kind
+        return key
+
+    def var_key(self, nm: str, e) -> str:
+        """One value per PRINTED name: the first object printed as `nm` owns the variable `nm`; a DIFFERENT symbol of
+        the same syntactic category printed under the same name gets a variable of its own (`nm #2`), which no
+        rendering can mention -- so an equation that shows two symbols under one name cannot be proved equal to the
+        original and is refuted numerically.  The base of an indexed family (m[i]) and a plain symbol (m) are
+        different categories: `m = Sum(m[i], i)` is ordinary notation, not a clash."""
+        cat = "indexed" if isinstance(e, sympy.IndexedBase) else "sym"
+        owners = self.owners.setdefault((cat, nm), [])
+        for i, o in enumerate(owners):
+            if o is e or o == e:
+                return nm if i == 0 else f"{nm} #{i + 1}"
+        owners.append(e)
+        if len(owners) > 1:
+            self.clashes.setdefault(nm, []).append(e)
+            return f"{nm} #{len(owners)}"
         return nm
 
     def _special(self, head: str, args):
@@ -251,8 +313,9 @@ class Reader:
         if e is S.Pi:
             return ("pi",)
         if e is S.ImaginaryUnit:
-            self.names.setdefault("I" if self.mode == "code" else "i", set()).add(e)
-            return ("var", "I" if self.mode == "code" else "i")
+            nm = "I" if self.mode == "code" else "i"
+            self.names.setdefault(nm, set()).add(e)
+            return ("var", self.var_key(nm, e))
         if e is S.Infinity:
             return ("var", "oo" if self.mode == "code" else "\\infty")
         if e is S.NegativeInfinity:
@@ -349,6 +412,8 @@ class Reader:
         return (self.read(e),)
 
     def collisions(self):
+        """printed names shared by distinct objects of ANY category (informational; same-category clashes are in
+        self.clashes and make the semantic obligation fail)"""
         return {k: len(v) for k, v in self.names.items() if len(v) > 1}
 
 
@@ -1003,6 +1068,10 @@ def _node_class(r):
     return None
 
 
+def has_inverse(r) -> bool:
+    return any(t[0] in ("inv", "div") for t in subtrees(r))
+
+
 def cong_script(em: CoqEmit, parsed, orig, all_names):
     """Tactic steps that rewrite applications (and denominators) of the parsed reading into the equal-valued
     applications of the original reading, innermost first.  The pairing is guessed numerically; every step is then
@@ -1019,6 +1088,10 @@ def cong_script(em: CoqEmit, parsed, orig, all_names):
         den = t[1] if t[0] == "inv" else (t[2] if t[0] == "div" else None)
         if den is not None and den[0] in ("add", "sub", "mul", "neg"):
             classes.setdefault("den", []).append((den, _fingerprint(den, val)))
+        if t[0] in ("add", "sub") and has_inverse(t):
+            # sums that contain quotients: made syntactically equal wherever they occur (e.g. as one FACTOR of a
+            # denominator), so that `/ S` is the same atom on both sides and no field side condition is needed
+            classes.setdefault("sum", []).append((t, _fingerprint(t, val)))
     # closed arithmetic sub-terms (e.g. 6.02 * 10^23 against 602000000000000000000000) are matched by exact value
     orig_closed = {}
     for t in subtrees(orig):
@@ -1086,6 +1159,14 @@ def cong_script(em: CoqEmit, parsed, orig, all_names):
                 return memo[key]
         n2 = rebuild(n)
         out = n2
+        if n[0] in ("add", "sub") and has_inverse(n):
+            text = em.t(n2)
+            hit = lookup("sum", _fingerprint(n, val), text)
+            if hit:
+                if hit[1] != text:
+                    steps.append(f"try (rd_replace {text} {hit[1]} ltac:(rd_arg))")
+                memo[key] = ("raw", hit[1])
+                return memo[key]
         cl = _node_class(n)
         if cl:
             text = em.t(n2)
@@ -1267,7 +1348,7 @@ class ExprGen:
         a, b, c, d = (self.expr(depth - 1) for _ in range(4))
         pw = self.pw
         n = sympy.Integer(rng.choice([2, 3, 4, 5]))
-        k = rng.randrange(22)
+        k = rng.randrange(36)
         if k == 0:
             return a / (b * c)
         if k == 1:
@@ -1310,7 +1391,40 @@ class ExprGen:
             return a / (b / c)
         if k == 20:
             return (a - b) * (c - d) / (a + d)
-        return 1 / (a + 1 / (b + c))
+        if k == 21:
+            return 1 / (a + 1 / (b + c))
+        # --- products of signs across numerator and denominator (denominators that are sums of negative terms) ---
+        s1, s2, s3 = (rng.choice(self.syms) for _ in range(3))
+        m = sympy.Integer(rng.choice([2, 3, 5, 10]))
+        if k == 22:
+            return -a / (-s1 - s2)
+        if k == 23:
+            return -n * a * s3 / (-s1 - s2)
+        if k == 24:
+            return a / (-s1 - s2)
+        if k == 25:
+            return -s1 * s2 / (-s3 - n * s1)
+        if k == 26:
+            return (-s1 - s2) / (-s3 - s1)
+        if k == 27:
+            return -a / (s1 - s2) + s3 / (-s1 - n)
+        if k == 28:
+            return -sympy.Rational(int(n), 7) * s3 / (-s1 - s2 - s3)
+        # --- a numeric coefficient next to a power of a number (the LaTeX needs \cdot between the numerals) ---
+        if k == 29:
+            return n * pw(m, s1)
+        if k == 30:
+            return 7 * pw(sympy.Integer(10), s1) / b
+        if k == 31:
+            return sympy.Rational(3, 2) * pw(sympy.Integer(5), a)
+        if k == 32:
+            return sympy.Float(2.5) * pw(sympy.Integer(10), -s1 / s2) + n * pw(m, n)
+        if k == 33:
+            return n * pw(m, -s1) * c
+        # --- reciprocal exponents and chained quotients ---
+        if k == 34:
+            return pw(a, 1 / s1) + pw(s2, 1 / sympy.sqrt(s3))
+        return a / b / (c + d)
 
     def sample(self, depth=None):
         depth = depth if depth is not None else self.rng.choice([2, 2, 3, 3, 4])
@@ -1397,7 +1511,10 @@ def classify_and_build(prop: str, cases, parse_fn: str, tactic: str = "rd_solve"
         a = c["parsed"]
         if a is None:
             c["status"] = "bad"
-            c["bad"] = (f"rendering does not parse under the reference grammar: {c['s']!r}", True)
+            hint = ""
+            if parse_fn == "parse_tex" and re.search(r"[0-9]\s+[0-9]", c["s"]):
+                hint = " (two numerals are separated only by blanks: TeX typesets them as ONE number, not as a product)"
+            c["bad"] = (f"rendering does not parse under the reference grammar{hint}: {c['s']!r}", True)
             continue
         known = set()
         heads = set()
@@ -1622,8 +1739,15 @@ class SourceFormGen:
             a = self.atom()
             if self.rng.random() < 0.25 and not a.is_Number:
                 return a**sympy.Integer(self.rng.choice([2, 3, 4]))
+            if a.is_Integer and self.rng.random() < 0.5:
+                # 2*10**3*x , 5*2**a : a power of a number, so that numerals meet inside a product
+                return a**(sympy.Integer(self.rng.choice([2, 3])) if self.rng.random() < 0.5 else self.rng.choice(self.syms))
             return a
-        if r < 0.75:
+        if r < 0.62:
+            # a sum of negative terms only:  a / (-b - c)
+            x, y = self.rng.choice(self.syms), self.rng.choice(self.syms)
+            return -x - self.rng.choice([1, 2, 3]) * y
+        if r < 0.78:
             s = self.sum(depth - 1, force=True)
             if self.rng.random() < 0.3:
                 return s**sympy.Integer(self.rng.choice([2, 3]))
@@ -1676,3 +1800,55 @@ class SourceFormGen:
             return self.sum(self.rng.choice([1, 2, 2, 3]))
         finally:
             global_parameters.evaluate = old
+
+
+def curated_expressions(symbols):
+    """Fixed list of (label, expression) run in EVERY tier and seed: minimal members of the shape classes that past
+    printer defects needed (signs across numerator/denominator, numerals meeting in a product, reciprocal exponents,
+    chained quotients, long floats, double fractions with a sign).  `symbols` = the driver's sample symbols."""
+    from sympy.core.parameters import global_parameters  # pylint: disable=import-outside-toplevel
+    a, b, c, x, y, t = symbols[0], symbols[1], symbols[2], symbols[5], symbols[8], symbols[6]
+    R, I, F = sympy.Rational, sympy.Integer, sympy.Float
+    out = []
+
+    def add(label, e):
+        out.append((label, e))
+
+    # canonical (auto-evaluated)
+    add("neg-coeff/all-neg-sum", -a / (-b - c))
+    add("neg-coeff*2/all-neg-sum", -2 * a * x / (-b - c))
+    add("pos/all-neg-sum", a / (-b - c))
+    add("neg/mixed-sum", -a / (b - c))
+    add("neg-rational-coeff/all-neg-sum", -R(3, 7) * a * x / (-b - c - t))
+    add("all-neg-sum/all-neg-sum", (-a - b) / (-c - x))
+    add("neg*all-neg-sum", -a * (-b - c) / x)
+    add("sum-of-signed-quotients", -a / (-b - c) - x / (-b - 2 * c) + y / (b + c))
+    add("numeral*power-of-number", 2 * I(3)**a)
+    add("numeral*power-of-ten/x", 7 * I(10)**a / x)
+    add("rational*power-of-number", R(3, 2) * I(5)**a)
+    add("decimal*power-of-ten", F(2.5) * I(10)**(-a))
+    add("numeral*decaying-power", 5 * I(2)**(-t / x))
+    add("numeral*numeral-power*symbol", 3 * I(2)**I(5) * x * I(7)**a)
+    add("reciprocal-exponent", x**(1 / y) + I(2)**(1 / x) * c + x**(1 / (y + c)))
+    add("reciprocal-sqrt-exponent", x**(1 / sympy.sqrt(y)))
+    add("long-floats", F(299792458.0) * t + x**F(2.718281828) + F(1.23456789) * x + 2 * x / F(3.0))
+    add("quotient-of-sums", (a + b) * (c + x) / y + (a - b) / ((c + x) * (a + y)))
+    add("power-of-quotient", (a / b)**c * (-a)**3 * (a**b)**c * a**(b**c))
+    add("minus-power", -(a * b)**2 - (-a)**2 + (-a * b)**R(1, 3))
+    old = global_parameters.evaluate
+    global_parameters.evaluate = False
+    try:
+        # law-style source forms (evaluation disabled)
+        add("src:signed-double-fraction", -a * b / (4 * c) / x**2)
+        add("src:signed-chain", -a / b / c + x)
+        add("src:chain/sum", a / b / (c + x))
+        add("src:chain/sum-2", 8 * a * b**3 / c**3 / (sympy.exp(a * b / (c * x)) - 1))
+        add("src:quarter-power", (1 - (a / b)**2)**(I(1) / I(4)))
+        add("src:numerals-in-a-row", 2 * I(10)**3 * x)
+        add("src:numeral*power-of-number", 5 * I(2)**a / x)
+        add("src:neg/all-neg-sum", -a / (-b - c))
+        add("src:neg-2/all-neg-sum", -2 * a * x / (-b - c))
+        add("src:product-of-bracketed-sums/x", (a + b) * (c + x) / y)
+    finally:
+        global_parameters.evaluate = old
+    return out
